@@ -82,6 +82,7 @@ type SpecFun struct {
 	Body   SExpr // nil: uninterpreted
 	IsPred bool
 	Opaque bool
+	View   bool // evaluated through a named logical array over its last parameter (gives quantifiers a good trigger)
 	File   string
 	Line   int
 }
@@ -116,10 +117,10 @@ type PkgSpec struct {
 }
 
 var clauseKeywords = map[string]bool{
-	"requires": true, "ensures": true, "modifies": true, "loop": true, "foreach": true, "serves": true,
+	"vfun": true, "requires": true, "ensures": true, "modifies": true, "loop": true, "foreach": true, "serves": true,
 	"trusted": true, "func": true, "fun": true, "pred": true, "lemma": true, "axiom": true, "mode": true,
 	"ghost": true, "inline": true, "pure": true, "bounded": true, "opaque": true,
-	"uses": true, "callback": true, "globalinv": true, "pattern": true, "hint": true, "footprint": true,
+	"uses": true, "callback": true, "globalinv": true, "pattern": true, "hint": true, "footprint": true, "covers": true,
 }
 
 type rawLine struct {
@@ -192,7 +193,7 @@ func groupLines(lines []rawLine) []rawLine {
 
 var (
 	reFunc   = regexp.MustCompile(`^func\s+([A-Za-z_][\w.]*)\s*(.*)$`)
-	reFun    = regexp.MustCompile(`^(fun|pred)\s+([A-Za-z_]\w*)\s*\(([^)]*)\)\s*([\w.*\[\]]*)\s*(?::=\s*(.*))?$`)
+	reFun    = regexp.MustCompile(`^(fun|pred|vfun)\s+([A-Za-z_]\w*)\s*\(([^)]*)\)\s*([\w.*\[\]]*)\s*(?::=\s*(.*))?$`)
 	reLemma  = regexp.MustCompile(`^(lemma|axiom)\s+([A-Za-z_]\w*)\s*\(([^)]*)\)\s*(.*)$`)
 	reLoop   = regexp.MustCompile(`^(loop|foreach)\s+#?(\d+)\s+(invariant|decreases|unroll)\s*(.*)$`)
 	reFootprint = regexp.MustCompile(`^footprint\s+([A-Za-z_]\w*)\s*\(\s*(\w+)\s*\)\s*:=\s*(.*)$`)
@@ -316,7 +317,7 @@ func (ps *PkgSpec) parseLines(raw []rawLine) error {
 			cur = &Contract{Pkg: ps.Pkg, Name: m[1], Loops: map[int]*LoopSpec{}, Foreach: map[int]*LoopSpec{}, Callbacks: map[string]*CallbackSpec{}, File: l.file, Line: l.line}
 			curLemma = nil
 			ps.Contracts[m[1]] = cur
-		case "fun", "pred":
+		case "fun", "pred", "vfun":
 			m := reFun.FindStringSubmatch(t)
 			if m == nil {
 				return errf("bad %s line %q", kw, t)
@@ -325,7 +326,7 @@ func (ps *PkgSpec) parseLines(raw []rawLine) error {
 			if err != nil {
 				return errf("%v", err)
 			}
-			sf := &SpecFun{Pkg: ps.Pkg, Name: m[2], Params: bs, Ret: m[4], IsPred: m[1] == "pred", File: l.file, Line: l.line}
+			sf := &SpecFun{Pkg: ps.Pkg, Name: m[2], Params: bs, Ret: m[4], IsPred: m[1] == "pred", View: m[1] == "vfun", File: l.file, Line: l.line}
 			if sf.IsPred {
 				sf.Ret = "bool"
 			}
@@ -499,6 +500,11 @@ func (ps *PkgSpec) parseLines(raw []rawLine) error {
 			default:
 				return errf("uses outside func/lemma")
 			}
+		case "covers":
+			for _, n := range strings.Fields(rest) {
+				ps.Funs["Covers$"+n] = &SpecFun{Pkg: ps.Pkg, Name: "Covers$" + n, File: l.file, Line: l.line}
+			}
+			cur, curLemma = nil, nil
 		case "footprint":
 			m := reFootprint.FindStringSubmatch(t)
 			if m == nil {
